@@ -184,15 +184,23 @@ static void run_seq(const char* mode)
     int nextra = c01 ? ncases : 0;
     for (int it0 = 0; it0 < ncases + nextra; it0++)
     {
-        int it = it0 < ncases ? it0 : it0 - ncases; int xk = it0 < ncases ? -1 : (it0 - ncases) % 4;
+        int it = it0 < ncases ? it0 : it0 - ncases; int xk = it0 < ncases ? -1 : (it0 - ncases) % 5;
         Problem p = gen_problem(g, it, c10);
         Opts o = gen_opts(g, c10); o.tap = -1; o.tol = 1e-7;
+        if (xk == 4) {      // a system that is coarse already and singular or nearly so (path-graph Laplacian, shift 0 or 1e-13): the
+                            // one-level "exact" solve does not solve it, and the report must say so
+            int n1 = 3 + it % 8; double sh = (it % 2) ? 0.0 : 1e-13;
+            p.use_stencil = false; p.kind = 1; p.n = n1; p.t = vh::Trip(); p.t.n_rows = p.t.n_cols = n1;
+            for (int i = 0; i < n1; i++) { double d = (i > 0) + (i + 1 < n1) + sh; p.t.r.push_back(i); p.t.c.push_back(i); p.t.v.push_back(d);
+                if (i + 1 < n1) { p.t.r.push_back(i); p.t.c.push_back(i + 1); p.t.v.push_back(-1); p.t.r.push_back(i + 1); p.t.c.push_back(i); p.t.v.push_back(-1); } }
+            o.max_coarse = 50; o.max_levels = 25;
+        }
         // no depth limit (the library's sentinel -1, written as 0 in the case lines) on the families that always coarsen: a
         // hierarchy that stagnates (decoupled rows) would never stop, which the property does not exclude
         if ((p.kind == 0 || p.kind == 2) && o.max_levels == 25 && o.max_coarse != 50) o.max_levels = -1;
         if (xk == 0) { o.relax = 0; o.weight = 1.25 + 0.5 * (it % 3); o.max_iter = std::max(o.max_iter, 12); }
         if (xk == 1) { o.relax = 0; o.weight = 1e8; o.max_iter = 40; }
-        double rhs_scale = xk >= 2 ? std::ldexp(1.0, -40) : 1.0;
+        double rhs_scale = xk == 2 ? std::ldexp(1.0, -40) : xk == 3 ? std::ldexp(1.0, -70) : 1.0;      // 2^-70: a right-hand side of norm below 1e-16
         CSRMatrix* A;
         if (p.use_stencil) { double* st = diffusion_stencil_2d(p.eps, p.theta); A = stencil_grid(st, p.grid, 2); delete[] st; }
         else {   // entries assembled like the distributed path does (duplicates summed), rows sorted by column
@@ -295,7 +303,7 @@ int main(int argc, char** argv)
         if (c10) { o.tap = -1; }
         if (xk == 0) { o.relax = 0; o.weight = 1.25 + 0.5 * (it % 3); o.max_iter = std::max(o.max_iter, 12); }
         if (xk == 1) { o.relax = 0; o.weight = 1e8; o.max_iter = 40; }
-        double rhs_scale = xk >= 2 ? std::ldexp(1.0, -40) : 1.0;
+        double rhs_scale = xk == 2 ? std::ldexp(1.0, -40) : xk == 3 ? std::ldexp(1.0, -70) : 1.0;      // 2^-70: a right-hand side of norm below 1e-16
         int style = 0;
         ParCSRMatrix* A = build(p, g, style);
         int fr = A->partition->first_local_row, lr = A->local_num_rows, n = A->global_num_rows;
